@@ -338,6 +338,14 @@ func runC09(c *Collector, r *Rng, thorough bool) {
 		if !canonicalInput {
 			t.RandWidths(r, 1, 2, isEnvelopeHead(kind, t))
 			t.ShuffleMaps(r)
+			// protected bstr with a wider head than needed, at every layer
+			for _, pp := range t.Nodes() {
+				n := *pp
+				if n.Maj == 4 && len(n.Kids) >= 3 && n.Kids[0].Maj == 2 && n.Kids[1].Maj == 5 && r.Bool() {
+					ws := widthsFor(uint64(len(n.Kids[0].Str)))
+					n.Kids[0].Width = ws[r.Intn(len(ws))]
+				}
+			}
 		}
 		data := t.Ser()
 		d := decodeCase(c, "reencode/"+kind, kind, data)
@@ -354,6 +362,40 @@ func runC09(c *Collector, r *Rng, thorough bool) {
 		if !bytes.Equal(want, d.reenc) {
 			c.Fail("C09/reencode-differs", fmt.Sprintf("re-encoding changed more than payload/signature length prefixes: got %x want %x", d.reenc, want), rep)
 			continue
+		}
+		// read-only use of the decoded message (Verify, Countersign0) must not change what it encodes to
+		if d.s1 != nil || d.sig != nil || d.sm != nil {
+			vf := &spyVerifier{alg: -7}
+			sg := &spySigner{alg: -7, kind: SOk, sig: []byte{1}}
+			var after []byte
+			var aerr error
+			switch {
+			case d.s1 != nil:
+				d.s1.Verify([]byte("x"), vf)
+				cose.Countersign0(nil, sg, d.s1, nil)
+				if kind == "DSign1" {
+					after, aerr = d.s1.MarshalCBOR()
+				} else {
+					after, aerr = (*cose.UntaggedSign1Message)(d.s1).MarshalCBOR()
+				}
+			case d.sig != nil:
+				d.sig.Verify(vf, []byte{0x40}, []byte("p"), []byte("x"))
+				cose.Countersign0(nil, sg, d.sig, nil)
+				after, aerr = d.sig.MarshalCBOR()
+			case d.sm != nil:
+				vfs := make([]cose.Verifier, len(d.sm.Signatures))
+				for j := range vfs {
+					vfs[j] = vf
+				}
+				d.sm.Verify([]byte("x"), vfs...)
+				cose.Countersign0(nil, sg, d.sm, nil)
+				after, aerr = d.sm.MarshalCBOR()
+			}
+			c.Eval("verify-then-encode/"+kind, hx(data), true)
+			if aerr != nil || !bytes.Equal(after, want) {
+				c.Fail("C09/encode-after-verify-differs", fmt.Sprintf("after Verify / Countersign0 the decoded message encodes to %x (%v), expected %x", after, aerr, want), rep)
+				continue
+			}
 		}
 		// further cycles are the identity
 		cur := d.reenc
